@@ -50,7 +50,7 @@ class ShapeDescriptionBase:
         self.thermoFactorMin = 1
 
     def _processAspectRatio(self, ar):
-        ar = np.atleast_1d(ar)
+        ar = np.array(ar, ndmin=1)    #copy: the clamp below must not write into the caller's array
         ar[ar < 1] = 1
         return ar
 
